@@ -1,4 +1,6 @@
 #!/bin/bash
-# tools/build.sh : build vcheck and move it into place atomically (safe while other runs use it)
+# tools/build.sh [dev] : build vcheck and move it into place atomically (safe while other runs use it);
+# with "dev" the binary goes to /tmp/vcheck-dev instead (use VCHECK=/tmp/vcheck-dev with try.sh / mut.sh)
 export GOFLAGS=-mod=mod GOPROXY=off GOSUMDB=off GOTOOLCHAIN=local GOWORK=off
+if [ "${1:-}" = dev ]; then cd /verif/checker && go build -o /tmp/vcheck-dev ./cmd/vcheck; exit $?; fi
 cd /verif/checker && go build -o /verif/bin/.vcheck.new ./cmd/vcheck && mv -f /verif/bin/.vcheck.new /verif/bin/vcheck
